@@ -445,6 +445,35 @@ _t(
     "a mapped consumer that takes the mapped array y whole (unlisted) while mapping over another axis",
 )
 
+_t(
+    "T19",
+    [FSpec("f", ["a"], ["y"], "a[i] -> y[k, i]", internal=(2,)), FSpec("tot", ["y", "c"], ["r"])],
+    lambda n, v: {"a": _lst(v, 0, n[0]), "c": v[6]},
+    1,
+    "leading internal axis, output delivered whole to a function without MapSpec",
+)
+_t(
+    "T20",
+    [FSpec("f", ["a", "b"], ["y"], "a[i], b[j] -> y[i, j]", defaults={"b": [1, 2]}), FSpec("g", ["y"], ["r"], "y[i, :] -> r[i]")],
+    lambda n, v: {"a": _lst(v, 0, n[0]), "b": _lst(v, 3, n[1])},
+    2,
+    "a mapped parameter that has a default array and is supplied with an array of another length",
+)
+_t(
+    "T21",
+    [FSpec("f", ["a", "b"], ["y"], "a[i], b[j] -> y[i, j]"), FSpec("g", ["y"], ["r"], "y[i, :] -> r[i]")],
+    lambda n, v: {"a": _lst(v, 0, n[0]), "b": _lst(v, 3, n[1])},
+    2,
+    "outer product with one partial reduction: axis i stays independent, j is reduced",
+)
+_t(
+    "TN2",
+    [FSpec("f", ["x", "w"], ["y"], "x[i], w[j] -> y[i, j]", none_when_zero=True), FSpec("g", ["y"], ["z"], "y[i, :] -> z[i]")],
+    lambda n, v: {"x": _lst(v, 0, n[0]), "w": _lst(v, 3, n[1])},
+    2,
+    "a producer that returns None for some elements, consumed through a slice",
+)
+
 QUICK_SIZES = 2
 THOROUGH_SIZES = 3
 
